@@ -229,3 +229,151 @@ func c04Sample(c ConvCase) any {
 }
 
 func TestC04(t *testing.T) { checkProp(t, "C04", "main", genC04, execC04) }
+
+// ---- C04 foreign: a peer that does not lower-case its keys -------------------
+
+type C04Foreign struct {
+	Side string   `json:"side"` // server (scripted caller -> goat server) | client (scripted server -> goat client)
+	Kind int      `json:"kind"`
+	Hdr  []kit.KV `json:"hdr"`
+	Trl  []kit.KV `json:"trl"`
+	Ser  bool     `json:"ser"`
+}
+
+func genC04Foreign(t *rapid.T) C04Foreign {
+	c := C04Foreign{Side: rapid.SampledFrom([]string{"server", "client"}).Draw(t, "side"), Ser: rapid.Bool().Draw(t, "ser")}
+	c.Kind = rapid.SampledFrom(allKinds).Draw(t, "kind")
+	pool := &[]string{}
+	c.Hdr = kit.GenMDPool(t, pool, 6)
+	c.Trl = kit.GenMDPool(t, pool, 4)
+	return c
+}
+
+func execC04Foreign(t *testing.T, c C04Foreign) (v Verdict) {
+	var gotReq map[string][]string
+	var gotHdr, gotTrl map[string][]string
+	hdrErr := ""
+	ran := false
+	res := kit.Bubble(t, func() {
+		bg := context.Background()
+		body := &kit.Payload{Class: "lit", Lit: []byte("x")}
+		if c.Side == "server" {
+			svc := kit.NewSvc()
+			var mu sync.Mutex
+			rec := func(ctx context.Context) {
+				md, _ := metadata.FromIncomingContext(ctx)
+				mu.Lock()
+				gotReq, ran = map[string][]string(md.Copy()), true
+				mu.Unlock()
+			}
+			svc.Unary("u", func(ctx context.Context, req []byte) ([]byte, error) { rec(ctx); return req, nil })
+			svc.Stream("s", true, true, func(s grpcServerStream) error { rec(s.Context()); return nil })
+			w := kit.NewWorld(kit.Topo{Kind: "direct", Serialize: c.Ser, Clients: 1, Raw: true}, svc, nil, nil)
+			e := kit.EnvSpec{HdrMD: kit.WireKV(c.Hdr)}
+			name := "s"
+			if c.Kind == kit.KindUnary {
+				name = "u"
+				e.Body, e.Wrap = body, true
+			}
+			_ = w.Links[0].A.Write(bg, e.Build(5, kit.FullMethod(name), "c0", kit.ServerName))
+			kit.Settle()
+			w.Shutdown()
+			kit.Settle()
+			return
+		}
+		tp := kit.NewTap()
+		l := kit.NewLink("c0", tp, c.Ser)
+		rec := &inHeaderRecorder{hdr: map[string][]metadata.MD{}}
+		cc := goat.NewClientConn(l.A, "c0", kit.ServerName, goat.WithStatsHandler(rec))
+		done := make(chan struct{})
+		go func() {
+			defer close(done)
+			if c.Kind == kit.KindUnary {
+				_, _ = kit.Invoke(bg, cc, "f", []byte("q"))
+				ran = true
+				return
+			}
+			cs, err := cc.NewStream(bg, kit.StreamDescFor(c.Kind), kit.FullMethod("f"))
+			if err != nil {
+				return
+			}
+			md, err := cs.Header()
+			if err != nil {
+				hdrErr = err.Error()
+			}
+			gotHdr = map[string][]string(md.Copy())
+			for {
+				if _, err := kit.RecvBytes(cs); err != nil {
+					break
+				}
+			}
+			gotTrl = map[string][]string(cs.Trailer().Copy())
+			ran = true
+		}()
+		kit.Settle()
+		reqs := l.B.ReadAvailable()
+		if len(reqs) == 0 {
+			return
+		}
+		id := reqs[0].GetId()
+		method := kit.FullMethod("f")
+		if c.Kind == kit.KindUnary {
+			e := kit.EnvSpec{HdrMD: kit.WireKV(c.Hdr), Body: body, Wrap: true, Trailer: true, TrlMD: kit.WireKV(c.Trl)}
+			_ = l.B.Write(bg, e.Build(id, method, kit.ServerName, "c0"))
+		} else {
+			e1 := kit.EnvSpec{HdrMD: kit.WireKV(c.Hdr), Body: body, Wrap: true}
+			e2 := kit.EnvSpec{Status: &kit.StatusSpec{Code: 0}, Trailer: true, TrlMD: kit.WireKV(c.Trl)}
+			_ = l.B.Write(bg, e1.Build(id, method, kit.ServerName, "c0"))
+			_ = l.B.Write(bg, e2.Build(id, method, kit.ServerName, "c0"))
+		}
+		kit.Settle()
+		if c.Kind == kit.KindUnary {
+			if hs := rec.hdr[method]; len(hs) == 1 {
+				gotHdr = map[string][]string(hs[0])
+			}
+		}
+		l.Close()
+		kit.Settle()
+	})
+	if res.Panic != nil {
+		v.failf("panic: %v\n%s", res.Panic, res.Stack)
+	}
+	if !ran {
+		v.failf("the call did not run to completion")
+	}
+	if c.Side == "server" {
+		if msg := kit.MDEqual(metadata.MD(gotReq), kit.ModelMD(c.Hdr)); msg != "" {
+			v.failf("request metadata from a peer that does not lower-case its keys: %s", msg)
+		}
+	} else {
+		if hdrErr != "" {
+			v.failf("Header(): %s", hdrErr)
+		}
+		if msg := kit.MDEqual(metadata.MD(gotHdr), kit.ModelMD(c.Hdr)); msg != "" {
+			v.failf("response headers from a peer that does not lower-case its keys: %s", msg)
+		}
+		if c.Kind != kit.KindUnary {
+			if msg := kit.MDEqual(metadata.MD(gotTrl), kit.ModelMD(c.Trl)); msg != "" {
+				v.failf("trailers from a peer that does not lower-case its keys: %s", msg)
+			}
+		}
+	}
+	upper := false
+	for _, kv := range append(append([]kit.KV{}, c.Hdr...), c.Trl...) {
+		if strings.ToLower(kv.K) != kv.K {
+			upper = true
+		}
+	}
+	v.Info = kit.CaseInfo{Labels: []string{"foreign." + c.Side, fmt.Sprintf("uppercase=%v", upper)}, NonTrivial: upper, Key: fmt.Sprintf("%+v", c), Sample: map[string]any{"side": c.Side, "kind": kit.KindNames[c.Kind], "hdr_keys": mdKeys(c.Hdr), "trl_keys": mdKeys(c.Trl)}}
+	return
+}
+
+func mdKeys(kvs []kit.KV) []string {
+	var out []string
+	for _, kv := range kvs {
+		out = append(out, kv.K)
+	}
+	return out
+}
+
+func TestC04Foreign(t *testing.T) { checkProp(t, "C04", "foreign", genC04Foreign, execC04Foreign) }
